@@ -22,7 +22,7 @@ NS = ('xmlns:office="urn:oasis:names:tc:opendocument:xmlns:office:1.0" '
 MIMES = {"odf": "application/vnd.oasis.opendocument.formula", "odt": "application/vnd.oasis.opendocument.text", "ods": "application/vnd.oasis.opendocument.spreadsheet",
          "odp": "application/vnd.oasis.opendocument.presentation", "odg": "application/vnd.oasis.opendocument.graphics"}
 
-ODT_SUPPORTS = {"r.acc", "r.num", "p", "h", "ul", "ul.nested", "tbl", "tbl.nested", "cell.multi", "tbx", "r", "tab", "br", "sp", "a",
+ODT_SUPPORTS = {"r.acc", "r.num", "p", "h", "ul", "ul.nested", "tbl", "tbl.nested", "tbl.nested.wide", "cell.multi", "tbx", "r", "tab", "br", "sp", "a",
                 "ins", "del", "fn", "cm", "header", "footer"}
 
 
@@ -206,11 +206,15 @@ def _ods_cell(c, repeat=None):
     if k == "b":
         v = "true" if c[1] else "false"
         return f'<table:table-cell{rep} office:value-type="boolean" office:boolean-value="{v}"><text:p>{v.upper()}</text:p></table:table-cell>'
+    # the paragraph of a date / time cell is its DISPLAY text in the document's locale, not the value
     if k in ("d", "date"):
-        return f'<table:table-cell{rep} office:value-type="date" office:date-value="{c[1]}"><text:p>{c[1]}</text:p></table:table-cell>'
+        y, mo, rest = c[1].split("-", 2)
+        shown = f"{rest[:2]}.{mo}.{y}" + (" " + rest[3:8] if len(rest) > 2 else "")
+        return f'<table:table-cell{rep} office:value-type="date" office:date-value="{c[1]}"><text:p>{shown}</text:p></table:table-cell>'
     if k == "t":
         h, m, s = c[1].split(":")
-        return f'<table:table-cell{rep} office:value-type="time" office:time-value="PT{h}H{m}M{s}S"><text:p>{c[1]}</text:p></table:table-cell>'
+        shown = f"{int(h) % 12 or 12}:{m}:{s} " + ("AM" if int(h) < 12 else "PM")
+        return f'<table:table-cell{rep} office:value-type="time" office:time-value="PT{h}H{m}M{s}S"><text:p>{shown}</text:p></table:table-cell>'
     if k == "multi":     # several paragraphs of tokens in one cell
         return (f'<table:table-cell{rep} office:value-type="string">' + "".join(f"<text:p>{word(i)}</text:p>" for i in c[1])
                 + "</table:table-cell>")
